@@ -69,8 +69,8 @@ CtxHist(c) ==
                     H("add_command", NoX, 0, 0, 0), H("create", NoX, 0, 1, 2), H("open", NoX, 0, 1, 1)>>
 CtxSegs(c) ==
   CASE c = "A" -> <<>>
-    [] c = "B" -> <<[prior |-> NoLoc, cmds |-> << <<<<XA, 11>>>> >>, facts |-> 1, pf |-> 0]>>
-    [] c = "C" -> <<[prior |-> NoLoc, cmds |-> << <<<<XA, 11>>>>, <<<<XA, 0>>>> >>, facts |-> 1, pf |-> 0]>>
+    [] c = "B" -> <<[prior |-> NoLoc, cmds |-> << <<<<XA, 11>>>> >>, facts |-> 1, pf |-> 0, disc |-> {}]>>
+    [] c = "C" -> <<[prior |-> NoLoc, cmds |-> << <<<<XA, 11>>>>, <<<<XA, 0>>>> >>, facts |-> 1, pf |-> 0, disc |-> {}]>>
 CtxIdx(c) ==
   CASE c = "A" -> <<>>
     [] c = "B" -> <<[prior |-> 0, depth |-> 1, m |-> (XA :> 11)]>>
@@ -80,7 +80,7 @@ RevInit ==
     /\ idx = CtxIdx(c) /\ segs = CtxSegs(c)
     /\ per = IF c = "A" THEN [Closed EXCEPT !.open = TRUE]
              ELSE [open |-> TRUE, parent |-> <<1, 1>>, fp |-> NewFp(PriorAtIn(CtxSegs(c), 1, 1)),
-                   cmds |-> <<>>, cur |-> <<>>]
+                   cmds |-> <<>>, cur |-> <<>>, disc |-> {}]
     /\ fper = FClosed /\ cps = <<>>
     /\ last = Rec("init", NoX, 0, 0, 0, 0, "ok", ObsIn(CtxSegs(c), per, FClosed))
     /\ hist = CtxHist(c)
